@@ -311,6 +311,12 @@ def canon_fetch_rules(rules):
     return [[s, sorted(groups[s])] for s in order]
 
 
+def canon_binop(r):
+    if "v" in r:
+        return {"v": canon_node(r["v"])}
+    return {k: v for k, v in r.items() if k in ("err", "panic", "out")}
+
+
 def canon_result(op, r, go):
     """the comparable part of one op result"""
     if "panic" in r or "crash" in r or "modelError" in r or "skip" in r:
